@@ -301,6 +301,10 @@ func runC13(c *Ctx) {
 					}
 				}
 				if under == "" && val == "" {
+					// the literal zero mode
+					if v, isC := eng.ConstInt(info, as.Rhs[0]); isC && v == 0 {
+						continue
+					}
 					// the zero mode for a reachability outside the table (the declaration's
 					// default, or a never-assigned zero variable handed back by a helper)
 					if o, isVar := eng.ObjOf(info, as.Rhs[0]).(*eng.Var); isVar && !o.IsField() {
